@@ -102,64 +102,73 @@ Definition csys0 : csys :=
 Definition owned (c : cpc) : option N :=
   match c with A0 _ c _ | A1 _ c _ _ | A2 _ c _ _ | A3 _ c => Some c | _ => None end.
 
-Definition vers (s : csys) := o_vers (c_store s).
+(** what the invariant talks about: everything but the snapshots and the clients *)
+Record cview := {
+  v_latest : option N; v_vers : gmap (N * N) (N * N); v_hist : list N; v_next : N;
+  v_sub : gmap N (N * N) }.
 
-Definition fresh_id (s : csys) (p c pl : N) : Prop :=
-  (0 < c)%N /\ (c < c_next s)%N /\ c ∉ c_hist s /\ c_sub s !! c = Some (p, pl)
-  /\ (p = 0%N \/ p ∈ c_hist s).
+Definition view (s : csys) : cview :=
+  {| v_latest := o_latest (c_store s); v_vers := o_vers (c_store s); v_hist := c_hist s;
+     v_next := c_next s; v_sub := c_sub s |}.
 
-Definition client_ok (s : csys) (c : cpc) : Prop :=
+Definition fresh_id (v : cview) (p c pl : N) : Prop :=
+  (0 < c)%N /\ (c < v_next v)%N /\ c ∉ v_hist v /\ v_sub v !! c = Some (p, pl)
+  /\ (p = 0%N \/ p ∈ v_hist v).
+
+Definition client_ok (v : cview) (c : cpc) : Prop :=
   match c with
-  | A0 p c pl => fresh_id s p c pl /\ (forall p', vers s !! (p', c) = None)
-  | A1 p c pl l => fresh_id s p c pl /\ (forall p', vers s !! (p', c) = None)
+  | A0 p c pl => fresh_id v p c pl /\ (forall p', v_vers v !! (p', c) = None)
+  | A1 p c pl l => fresh_id v p c pl /\ (forall p', v_vers v !! (p', c) = None)
                    /\ (forall l0, l = Some l0 -> l0 = p)
-  | A2 p c pl l => fresh_id s p c pl
-                   /\ (forall p', is_Some (vers s !! (p', c)) -> p' = p)
-                   /\ is_Some (vers s !! (p, c))
+  | A2 p c pl l => fresh_id v p c pl
+                   /\ (forall p', is_Some (v_vers v !! (p', c)) -> p' = p)
+                   /\ is_Some (v_vers v !! (p, c))
                    /\ (forall l0, l = Some l0 -> l0 = p)
-  | A3 p c => (c < c_next s)%N /\ c ∉ c_hist s /\ (forall p', is_Some (vers s !! (p', c)) -> p' = p)
+  | A3 p c => (c < v_next v)%N /\ c ∉ v_hist v /\ (forall p', is_Some (v_vers v !! (p', c)) -> p' = p)
   | A4 => True
-  | A5 c => c ∈ c_hist s
+  | A5 c => c ∈ v_hist v
   | G0 _ acc _ => Forall (fun c => (0 < c)%N) acc
   | G1 _ ch => Forall (fun c => (0 < c)%N) ch
   | G2 _ todo cur ne _ best =>
-      Forall (fun c => (0 < c)%N) todo /\ (0 < cur)%N /\ (ne = true -> cur ∈ c_hist s)
-      /\ (forall b, best = Some b -> b ∈ c_hist s)
-  | G3 _ c => c ∈ c_hist s
+      Forall (fun c => (0 < c)%N) todo /\ (0 < cur)%N /\ (ne = true -> cur ∈ v_hist v)
+      /\ (forall b, best = Some b -> b ∈ v_hist v)
+  | G3 _ c => c ∈ v_hist v
   | S0 _ _ | T0 | T1 _ => True
   | _ => False                       (* no cleanup machine, no finished call *)
   end.
 
-Definition result_ok (s : csys) (x : cpc * cres) : Prop :=
+Definition result_ok (v : cview) (x : cpc * cres) : Prop :=
   match x.2 with
-  | CAddOk c _ => c ∈ c_hist s
-  | CVersion c pl => exists p, x.1 = G3 p c /\ c ∈ c_hist s /\ c_sub s !! c = Some (p, pl)
-  | CExpected l => l = 0%N \/ l ∈ c_hist s
+  | CAddOk c _ => c ∈ v_hist v
+  | CVersion c pl => exists p, x.1 = G3 p c /\ c ∈ v_hist v /\ v_sub v !! c = Some (p, pl)
+  | CExpected l => l = 0%N \/ l ∈ v_hist v
   | _ => True
   end.
 
-Definition CInv (s : csys) : Prop :=
+Definition Core (v : cview) : Prop :=
   (* the ghost history tracks latest *)
-  o_latest (c_store s) = last (c_hist s)
-  /\ NoDup (c_hist s)
-  /\ (0 < c_next s)%N
-  /\ (forall c, c ∈ c_hist s -> (0 < c)%N /\ (c < c_next s)%N)
+  v_latest v = last (v_hist v)
+  /\ NoDup (v_hist v)
+  /\ (0 < v_next v)%N
+  /\ (forall c, c ∈ v_hist v -> (0 < c)%N /\ (c < v_next v)%N)
   (* every version on the chain has its object; a non-first one is the child of its predecessor *)
-  /\ (forall k c, c_hist s !! k = Some c ->
-        exists p, is_Some (vers s !! (p, c)) /\ (forall k', k = S k' -> c_hist s !! k' = Some p))
+  /\ (forall k c, v_hist v !! k = Some c ->
+        exists p, is_Some (v_vers v !! (p, c)) /\ (forall k', k = S k' -> v_hist v !! k' = Some p)
+                  /\ (k = 0%nat -> p = 0%N))
   (* an id names at most one object *)
-  /\ (forall p p' c, is_Some (vers s !! (p, c)) -> is_Some (vers s !! (p', c)) -> p = p')
+  /\ (forall p p' c, is_Some (v_vers v !! (p, c)) -> is_Some (v_vers v !! (p', c)) -> p = p')
   (* objects carry ids already handed out, hang below the nil version or a version that has
      been latest, and hold what was submitted under their id *)
-  /\ (forall p c x, vers s !! (p, c) = Some x ->
-        (0 < c)%N /\ (c < c_next s)%N /\ (p = 0%N \/ p ∈ c_hist s) /\ c_sub s !! c = Some (p, x.1))
-  /\ (forall c x, c_sub s !! c = Some x -> (c < c_next s)%N)
-  (* the clients *)
-  /\ (forall i c, c_clients s !! i = Some c -> client_ok s c)
+  /\ (forall p c x, v_vers v !! (p, c) = Some x ->
+        (0 < c)%N /\ (c < v_next v)%N /\ (p = 0%N \/ p ∈ v_hist v) /\ v_sub v !! c = Some (p, x.1))
+  /\ (forall c x, v_sub v !! c = Some x -> (c < v_next v)%N).
+
+Definition CInv (s : csys) : Prop :=
+  Core (view s)
+  /\ (forall i c, c_clients s !! i = Some c -> client_ok (view s) c)
   /\ (forall i j c c' x, i <> j -> c_clients s !! i = Some c -> c_clients s !! j = Some c' ->
         owned c = Some x -> owned c' = Some x -> False)
-  (* every result ever returned *)
-  /\ Forall (result_ok s) (c_results s).
+  /\ Forall (result_ok (view s)) (c_results s).
 
 (** ** listings only name stored objects *)
 Lemma ins_ver_elem x y l : x ∈ ins_ver rank y l <-> x = y \/ x ∈ l.
@@ -198,3 +207,681 @@ Proof.
   - intros p ->. apply N.eqb_eq. exact Hp.
 Qed.
 End Chain.
+
+(** ** the four ways a step changes the view *)
+Definition put_view (v : cview) (p c pl now : N) : cview :=
+  {| v_latest := v_latest v; v_vers := <[(p, c) := (pl, now)]> (v_vers v); v_hist := v_hist v;
+     v_next := v_next v; v_sub := v_sub v |}.
+Definition cas_view (v : cview) (c : N) : cview :=
+  {| v_latest := Some c; v_vers := v_vers v; v_hist := v_hist v ++ [c]; v_next := v_next v; v_sub := v_sub v |}.
+Definition del_view (v : cview) (p c : N) : cview :=
+  {| v_latest := v_latest v; v_vers := delete (p, c) (v_vers v); v_hist := v_hist v;
+     v_next := v_next v; v_sub := v_sub v |}.
+Definition start_view (v : cview) (p pl : N) : cview :=
+  {| v_latest := v_latest v; v_vers := v_vers v; v_hist := v_hist v; v_next := (v_next v + 1)%N;
+     v_sub := <[v_next v := (p, pl)]> (v_sub v) |}.
+
+(** [v'] extends [v] touching only the id [x]: other ids keep their objects,
+    the history only grows, by [x] at most *)
+Definition touches (v v' : cview) (x : N) : Prop :=
+  (forall p c, c <> x -> v_vers v' !! (p, c) = v_vers v !! (p, c))
+  /\ (forall c, c ∈ v_hist v' -> c ∈ v_hist v \/ c = x)
+  /\ (forall c, c ∈ v_hist v -> c ∈ v_hist v')
+  /\ v_next v' = v_next v /\ v_sub v' = v_sub v.
+
+Lemma touches_put v p c pl now : touches v (put_view v p c pl now) c.
+Proof.
+  repeat split; cbn; auto.
+  intros p' c' Hne. apply lookup_insert_ne. intros [= _ ->]. apply Hne. reflexivity.
+Qed.
+Lemma touches_cas v c : touches v (cas_view v c) c.
+Proof.
+  repeat split; cbn; auto.
+  - intros c' Hc. apply elem_of_app in Hc as [Hc|Hc]; [left; exact Hc|]. right.
+    apply elem_of_list_singleton in Hc. exact Hc.
+  - intros c' Hc. apply elem_of_app. left. exact Hc.
+Qed.
+Lemma touches_del v p c : touches v (del_view v p c) c.
+Proof.
+  repeat split; cbn; auto.
+  intros p' c' Hne. apply lookup_delete_ne. intros [= _ ->]. apply Hne. reflexivity.
+Qed.
+
+Lemma fresh_id_other v v' x p c pl : touches v v' x -> c <> x -> fresh_id v p c pl -> fresh_id v' p c pl.
+Proof.
+  intros (T1 & T2 & T3 & T4 & T5) Hne (F1 & F2 & F3 & F4 & F5).
+  unfold fresh_id. rewrite T4, T5. repeat split; auto.
+  - intros Hin. apply T2 in Hin as [Hin| ->]; [exact (F3 Hin)|exact (Hne eq_refl)].
+  - destruct F5 as [F5|F5]; [left; exact F5|right; apply T3; exact F5].
+Qed.
+
+Lemma client_ok_other v v' x c : touches v v' x -> owned c <> Some x -> client_ok v c -> client_ok v' c.
+Proof.
+  intros T Hown. pose proof T as (T1 & T2 & T3 & T4 & T5).
+  destruct c; cbn in *; try exact (fun H => H).
+  - (* A0 *) intros [F Hn]. assert (c <> x) as Hne by congruence.
+    split; [eapply fresh_id_other; eauto|]. intros p'. rewrite T1 by exact Hne. apply Hn.
+  - intros (F & Hn & Hl). assert (c <> x) as Hne by congruence.
+    split; [eapply fresh_id_other; eauto|]. split; [|exact Hl]. intros p'. rewrite T1 by exact Hne. apply Hn.
+  - intros (F & Hu & He & Hl). assert (c <> x) as Hne by congruence.
+    split; [eapply fresh_id_other; eauto|]. rewrite !T1 by exact Hne.
+    split; [|split; [exact He|exact Hl]]. intros p'. rewrite T1 by exact Hne. apply Hu.
+  - intros (F1 & F2 & Hu). assert (c <> x) as Hne by congruence. rewrite T4.
+    split; [exact F1|]. split.
+    + intros Hin. apply T2 in Hin as [Hin| ->]; [exact (F2 Hin)|exact (Hne eq_refl)].
+    + intros p'. rewrite T1 by exact Hne. apply Hu.
+  - intros H. apply T3. exact H.
+  - intros (H1 & H2 & H3 & H4). split; [exact H1|]. split; [exact H2|]. split.
+    + intros Hne. apply T3. auto.
+    + intros b Hb. apply T3. eauto.
+  - intros H. apply T3. exact H.
+Qed.
+
+Lemma result_ok_mono v v' x r : touches v v' x -> result_ok v r -> result_ok v' r.
+Proof.
+  intros (T1 & T2 & T3 & T4 & T5). unfold result_ok. destruct r.2; auto.
+  - intros [H|H]; [left; exact H|right; apply T3; exact H].
+  - intros (p & H1 & H2 & H3). exists p. rewrite T5. auto.
+Qed.
+
+(** *** put: an add-version machine at [A1] uploads its object *)
+Lemma Core_put v p c pl l now :
+  Core v -> client_ok v (A1 p c pl l) -> Core (put_view v p c pl now).
+Proof.
+  intros (I1 & I2 & I3 & I4 & I5 & I6 & I7 & I8) ((F1 & F2 & F3 & F4 & F5) & Hn & Hl).
+  unfold Core, put_view; cbn. repeat split; auto.
+  - apply I4. assumption.
+  - apply I4. assumption.
+  - intros k c0 Hk. destruct (I5 k c0 Hk) as (p0 & Hs & Hp). exists p0. split; [|exact Hp].
+    rewrite lookup_insert_ne; [exact Hs|]. intros [= _ ->]. apply F3. eapply elem_of_list_lookup_2. exact Hk.
+  - intros p1 p2 c1 H1 H2. destruct (decide (c1 = c)) as [->|Hne].
+    + assert (forall q, is_Some (<[(p, c) := (pl, now)]> (v_vers v) !! (q, c)) -> q = p) as Hq.
+      { intros q Hq. destruct (decide (q = p)) as [|Hqp]; [assumption|].
+        rewrite lookup_insert_ne in Hq by congruence. rewrite Hn in Hq. destruct Hq as [? Hq]. discriminate. }
+      rewrite (Hq _ H1), (Hq _ H2). reflexivity.
+    + rewrite lookup_insert_ne in H1 by congruence. rewrite lookup_insert_ne in H2 by congruence. eauto.
+  - destruct (decide ((p0, c0) = (p, c))) as [[= -> ->]|Hne].
+    + assumption.
+    + rewrite lookup_insert_ne in H by congruence. apply (I7 _ _ _ H).
+  - destruct (decide ((p0, c0) = (p, c))) as [[= -> ->]|Hne].
+    + assumption.
+    + rewrite lookup_insert_ne in H by congruence. apply (I7 _ _ _ H).
+  - destruct (decide ((p0, c0) = (p, c))) as [[= -> ->]|Hne].
+    + assumption.
+    + rewrite lookup_insert_ne in H by congruence. apply (I7 _ _ _ H).
+  - destruct (decide ((p0, c0) = (p, c))) as [[= -> ->]|Hne].
+    + rewrite lookup_insert in H. injection H as <-. exact F4.
+    + rewrite lookup_insert_ne in H by congruence. apply (I7 _ _ _ H).
+Qed.
+
+Lemma ok_after_put v p c pl l now :
+  client_ok v (A1 p c pl l) -> client_ok (put_view v p c pl now) (A2 p c pl l).
+Proof.
+  intros (F & Hn & Hl). cbn. split; [exact F|]. split; [|split; [|exact Hl]].
+  - intros q Hq. destruct (decide (q = p)) as [|Hqp]; [assumption|].
+    rewrite lookup_insert_ne in Hq by congruence. rewrite Hn in Hq. destruct Hq as [? Hq]. discriminate.
+  - rewrite lookup_insert. eauto.
+Qed.
+
+(** *** swap: an add-version machine at [A2] commits its version *)
+Lemma Core_cas v p c pl l :
+  Core v -> client_ok v (A2 p c pl l) -> v_latest v = l -> Core (cas_view v c).
+Proof.
+  intros (I1 & I2 & I3 & I4 & I5 & I6 & I7 & I8) ((F1 & F2 & F3 & F4 & F5) & Hu & He & Hl) Hlat.
+  unfold Core, cas_view; cbn. repeat split; auto.
+  - rewrite last_snoc. reflexivity.
+  - apply NoDup_app. split; [exact I2|]. split; [|apply NoDup_singleton].
+    intros x Hx Hx'. apply elem_of_list_singleton in Hx'. subst x. exact (F3 Hx).
+  - apply elem_of_app in H as [H|H]; [apply I4; exact H|]. apply elem_of_list_singleton in H. subst. exact F1.
+  - apply elem_of_app in H as [H|H]; [apply I4; exact H|]. apply elem_of_list_singleton in H. subst. exact F2.
+  - intros k c0 Hk. destruct (decide (k < length (v_hist v))%nat) as [Hlt|Hge].
+    + rewrite lookup_app_l in Hk by exact Hlt. destruct (I5 k c0 Hk) as (p0 & Hs & Hp & Hz).
+      exists p0. split; [exact Hs|]. split; [|exact Hz]. intros k' ->. rewrite lookup_app_l by lia. apply Hp. reflexivity.
+    + rewrite lookup_app_r in Hk by lia.
+      destruct (k - length (v_hist v))%nat eqn:Ek; [|destruct n; discriminate].
+      cbn in Hk. injection Hk as <-. exists p. split; [exact He|]. split.
+      * intros k' ->. assert (k' = pred (length (v_hist v))) as -> by lia.
+        rewrite lookup_app_l by lia. rewrite <- last_lookup, <- I1, Hlat.
+        destruct l as [l0|].
+        -- rewrite (Hl l0 eq_refl). reflexivity.
+        -- exfalso. rewrite Hlat in I1. symmetry in I1. apply last_None in I1. rewrite I1 in *. cbn in *. lia.
+      * intros ->. assert (v_hist v = []) as Hnil by (destruct (v_hist v); [reflexivity|cbn in *; lia]).
+        rewrite Hnil in F5. destruct F5 as [F5|F5]; [exact F5|inversion F5].
+  - apply (I7 _ _ _ H).
+  - apply (I7 _ _ _ H).
+  - destruct (I7 _ _ _ H) as (_ & _ & [Hp|Hp] & _); [left; exact Hp|right; apply elem_of_app; left; exact Hp].
+  - apply (I7 _ _ _ H).
+Qed.
+
+(** *** delete: an add-version machine at [A3] withdraws its object *)
+Lemma Core_del v p c :
+  Core v -> client_ok v (A3 p c) -> Core (del_view v p c).
+Proof.
+  intros (I1 & I2 & I3 & I4 & I5 & I6 & I7 & I8) (F1 & F2 & Hu).
+  unfold Core, del_view; cbn. repeat split; auto.
+  - apply I4. assumption.
+  - apply I4. assumption.
+  - intros k c0 Hk. destruct (I5 k c0 Hk) as (p0 & Hs & Hp). exists p0. split; [|exact Hp].
+    rewrite lookup_delete_ne; [exact Hs|]. intros [= _ ->]. apply F2. eapply elem_of_list_lookup_2. exact Hk.
+  - intros p1 p2 c1 [x1 H1] [x2 H2]. apply lookup_delete_Some in H1 as [_ H1]. apply lookup_delete_Some in H2 as [_ H2]. eauto.
+  - apply lookup_delete_Some in H as [_ H]. apply (I7 _ _ _ H).
+  - apply lookup_delete_Some in H as [_ H]. apply (I7 _ _ _ H).
+  - apply lookup_delete_Some in H as [_ H]. apply (I7 _ _ _ H).
+  - apply lookup_delete_Some in H as [_ H]. apply (I7 _ _ _ H).
+Qed.
+
+(** *** a new add-version call takes the next id *)
+Lemma Core_start v p pl : Core v -> Core (start_view v p pl).
+Proof.
+  intros (I1 & I2 & I3 & I4 & I5 & I6 & I7 & I8).
+  unfold Core, start_view; cbn. repeat split; auto; try lia.
+  - apply I4. assumption.
+  - destruct (I4 _ H) as [_ H']. lia.
+  - apply (I7 _ _ _ H).
+  - destruct (I7 _ _ _ H) as (_ & H' & _). lia.
+  - apply (I7 _ _ _ H).
+  - destruct (I7 _ _ _ H) as (_ & Hlt & _ & Hs). rewrite lookup_insert_ne by lia. exact Hs.
+  - intros c x Hc. destruct (decide (c = v_next v)) as [->|Hne]; [lia|].
+    rewrite lookup_insert_ne in Hc by congruence. apply I8 in Hc. lia.
+Qed.
+
+Lemma client_ok_start v p pl c : Core v -> client_ok v c -> client_ok (start_view v p pl) c.
+Proof.
+  intros (_ & _ & _ & _ & _ & _ & _ & I8).
+  assert (forall p0 c0 pl0, fresh_id v p0 c0 pl0 -> fresh_id (start_view v p pl) p0 c0 pl0) as HF.
+  { intros p0 c0 pl0 (F1 & F2 & F3 & F4 & F5). unfold fresh_id; cbn. repeat split; auto; try lia.
+    rewrite lookup_insert_ne by lia. exact F4. }
+  destruct c; cbn; try exact (fun H => H).
+  - intros [F Hn]. split; [apply HF; exact F|exact Hn].
+  - intros (F & Hn & Hl). split; [apply HF; exact F|]. split; assumption.
+  - intros (F & Hu & He & Hl). split; [apply HF; exact F|]. repeat split; assumption.
+  - intros (F1 & F2 & Hu). repeat split; auto. lia.
+Qed.
+
+Lemma result_ok_start v p pl r : Core v -> result_ok v r -> result_ok (start_view v p pl) r.
+Proof.
+  intros (_ & _ & _ & _ & _ & _ & _ & I8). unfold result_ok. destruct r.2; auto.
+  intros (p0 & H1 & H2 & H3). exists p0. cbn. repeat split; auto.
+  rewrite lookup_insert_ne; [exact H3|]. intros <-. apply I8 in H3. lia.
+Qed.
+
+Lemma touches_refl v x : touches v v x.
+Proof. repeat split; auto. Qed.
+
+Lemma latest_in_hist v l : Core v -> v_latest v = Some l -> l ∈ v_hist v.
+Proof.
+  intros (I1 & _) H. rewrite I1 in H. rewrite last_lookup in H. eapply elem_of_list_lookup_2. exact H.
+Qed.
+
+(** ** one request of one client *)
+Section Step.
+Variable rank : N -> N.
+Variable pagesz : nat.
+Variable threshold : N.
+
+Definition view_after (s : csys) (st' : ostore) : cview :=
+  {| v_latest := o_latest st'; v_vers := o_vers st'; v_hist := hist_after (c_store s) st' (c_hist s);
+     v_next := c_next s; v_sub := c_sub s |}.
+
+Lemma view_after_frame s st' :
+  o_latest st' = o_latest (c_store s) -> o_vers st' = o_vers (c_store s) -> view_after s st' = view s.
+Proof.
+  intros H1 H2. unfold view_after, view, hist_after. rewrite bool_decide_eq_true_2 by exact H1.
+  rewrite H1, H2. reflexivity.
+Qed.
+
+Definition scan_post (v : cview) (X : cpc) : Prop :=
+  match X with
+  | CDone r0 => forall c, result_ok v (c, r0)
+  | _ => client_ok v X /\ owned X = None
+  end.
+
+Lemma next_scan_ok v p todo best :
+  Forall (fun c => (0 < c)%N) todo -> (forall b, best = Some b -> b ∈ v_hist v) ->
+  scan_post v (next_scan p todo best).
+Proof.
+  intros Ht Hb. unfold scan_post, next_scan. destruct todo as [|c2 rest].
+  - destruct best as [tc|]; cbn.
+    + split; [apply Hb; reflexivity|reflexivity].
+    + intros c. exact I.
+  - inversion Ht; subst. cbn. repeat split; auto. intros Hf. discriminate.
+Qed.
+
+Lemma scan_goal v c X :
+  scan_post v X ->
+  match X with
+  | CDone r0 => result_ok v (c, r0)
+  | _ => client_ok v X /\ (forall x', owned X = Some x' -> owned c = Some x')
+  end.
+Proof.
+  unfold scan_post. destruct X; intros H;
+    try (destruct H as [H1 H2]; split; [exact H1|intros x' Hx'; rewrite H2 in Hx'; discriminate]).
+  apply H.
+Qed.
+
+Lemma list_ver_resp now st parent after r st' :
+  ostore_step rank pagesz now st (QListVer parent after) = (r, st') ->
+  st' = st /\ exists l more, r = PVerPage l more.
+Proof. cbn. intros [= <- <-]. eauto. Qed.
+Lemma list_snap_resp now st after r st' :
+  ostore_step rank pagesz now st (QListSnap after) = (r, st') ->
+  st' = st /\ exists l more, r = PSnapPage l more.
+Proof. cbn. intros [= <- <-]. eauto. Qed.
+
+Lemma step_client s i now c :
+  CInv s -> c_clients s !! i = Some c ->
+  forall q, cl_next c = inl q ->
+  let rs := ostore_step rank pagesz now (c_store s) q in
+  let v' := view_after s rs.2 in
+  let c' := cl_resume rank threshold c rs.1 in
+  Core v'
+  /\ (exists x, touches (view s) v' x /\ (owned c = Some x \/ (owned c = None /\ v' = view s)))
+  /\ match c' with
+     | CDone r0 => result_ok v' (c, r0)
+     | _ => client_ok v' c' /\ (forall x', owned c' = Some x' -> owned c = Some x')
+     end.
+Proof.
+  intros (HC & Hcl & Hown & Hres) Hi q Hq. pose proof (Hcl _ _ Hi) as Hok.
+  pose proof HC as (I1 & I2 & I3 & I4 & I5 & I6 & I7 & I8).
+  assert (forall st', o_latest st' = o_latest (c_store s) -> o_vers st' = o_vers (c_store s) ->
+          Core (view_after s st')
+          /\ (exists x, touches (view s) (view_after s st') x
+                        /\ (owned c = Some x \/ (owned c = None /\ view_after s st' = view s)))) as Frame.
+  { intros st' H1 H2. rewrite (view_after_frame _ _ H1 H2). split; [exact HC|].
+    destruct (owned c) as [x|] eqn:Eo.
+    - exists x. split; [apply touches_refl|left; reflexivity].
+    - exists 0%N. split; [apply touches_refl|right; split; reflexivity]. }
+  destruct c; cbn in Hq; try discriminate; try (cbn in Hok; contradiction); injection Hq as <-; cbn zeta.
+  - (* A0: read latest *)
+    cbn [ostore_step fst snd]. destruct (Frame (c_store s) eq_refl eq_refl) as [F1 F2].
+    split; [exact F1|]. split; [exact F2|]. rewrite (view_after_frame _ _ eq_refl eq_refl).
+    cbn [cl_resume]. destruct Hok as [Hf Hn].
+    destruct (o_latest (c_store s)) as [l0|] eqn:El.
+    + destruct (N.eqb_spec l0 p) as [->|Hne].
+      * cbn. split; [|auto]. split; [exact Hf|]. split; [exact Hn|]. intros l1 [= <-]. reflexivity.
+      * cbn. right. apply (latest_in_hist (view s)); [exact HC|exact El].
+    + cbn. split; [|auto]. split; [exact Hf|]. split; [exact Hn|]. intros l1 Hl1. discriminate.
+  - (* A1: put the object *)
+    cbn [ostore_step fst snd].
+    assert (view_after s {| o_latest := o_latest (c_store s);
+                            o_vers := <[(p, c) := (pl, now)]> (o_vers (c_store s));
+                            o_snaps := o_snaps (c_store s) |} = put_view (view s) p c pl now) as ->.
+    { unfold view_after, hist_after. cbn. rewrite bool_decide_eq_true_2 by reflexivity. reflexivity. }
+    split; [eapply Core_put; eauto|].
+    split; [exists c; split; [apply touches_put|left; reflexivity]|].
+    cbn [cl_resume]. split; [apply ok_after_put; exact Hok|]. cbn. auto.
+  - (* A2: the swap *)
+    cbn [ostore_step]. destruct Hok as (Hf & Hu & He & Hl). pose proof Hf as (F1 & F2 & F3 & F4 & F5).
+    destruct (bool_decide (o_latest (c_store s) = l)) eqn:Eb; cbn [fst snd].
+    + apply bool_decide_eq_true in Eb.
+      assert (view_after s {| o_latest := Some c; o_vers := o_vers (c_store s); o_snaps := o_snaps (c_store s) |}
+              = cas_view (view s) c) as ->.
+      { unfold view_after, hist_after. cbn. rewrite bool_decide_eq_false_2; [reflexivity|].
+        intros Heq. apply F3. apply (latest_in_hist (view s)); [exact HC|]. cbn. symmetry. exact Heq. }
+      split; [apply (Core_cas (view s) p c pl l); [exact HC| |exact Eb]; cbn; auto|].
+      split; [exists c; split; [apply touches_cas|left; reflexivity]|].
+      cbn. split; [apply elem_of_app; right; apply elem_of_list_singleton; reflexivity|]. intros x' Hx'. discriminate.
+    + destruct (Frame (c_store s) eq_refl eq_refl) as [G1' G2'].
+      split; [exact G1'|]. split; [exact G2'|]. rewrite (view_after_frame _ _ eq_refl eq_refl).
+      cbn. repeat split; auto.
+  - (* A3: withdraw the object *)
+    cbn [ostore_step fst snd].
+    assert (view_after s {| o_latest := o_latest (c_store s); o_vers := delete (p, c) (o_vers (c_store s));
+                            o_snaps := o_snaps (c_store s) |} = del_view (view s) p c) as ->.
+    { unfold view_after, hist_after. cbn. rewrite bool_decide_eq_true_2 by reflexivity. reflexivity. }
+    split; [eapply Core_del; eauto|].
+    split; [exists c; split; [apply touches_del|left; reflexivity]|].
+    cbn. split; [exact I|]. intros x' Hx'. discriminate.
+  - (* A4: report the latest *)
+    cbn [ostore_step fst snd]. destruct (Frame (c_store s) eq_refl eq_refl) as [F1 F2].
+    split; [exact F1|]. split; [exact F2|]. rewrite (view_after_frame _ _ eq_refl eq_refl).
+    cbn. destruct (o_latest (c_store s)) as [l0|] eqn:El; cbn.
+    + right. apply (latest_in_hist (view s)); [exact HC|exact El].
+    + left. reflexivity.
+  - (* A5: snapshot urgency *)
+    cbn [ostore_step fst snd]. destruct (Frame (c_store s) eq_refl eq_refl) as [F1 F2].
+    split; [exact F1|]. split; [exact F2|]. rewrite (view_after_frame _ _ eq_refl eq_refl).
+    cbn. exact Hok.
+  - (* G0: list the children *)
+    destruct (ostore_step rank pagesz now (c_store s) (QListVer (Some p) after)) as [r st'] eqn:E.
+    destruct (list_ver_resp _ _ _ _ _ _ E) as (-> & l & more & ->).
+    cbn [fst snd]. destruct (Frame (c_store s) eq_refl eq_refl) as [F1 F2].
+    split; [exact F1|]. split; [exact F2|]. rewrite (view_after_frame _ _ eq_refl eq_refl).
+    cbn [cl_resume].
+    assert (Forall (fun c => (0 < c)%N) (acc ++ map (fun x : N * N * N => x.1.2) l)) as Hacc.
+    { apply Forall_app. split; [exact Hok|]. apply Forall_forall. intros c0 Hc0.
+      apply elem_of_list_fmap in Hc0 as (x & -> & Hx).
+      destruct (page_elem rank pagesz threshold now (c_store s) (Some p) after l more x) as [(pl0 & Hpl) _];
+        [rewrite E; reflexivity|exact Hx|].
+      destruct x as [[xp xc] xt]. apply (I7 _ _ _ Hpl). }
+    destruct more.
+    + cbn. split; [exact Hacc|]. intros x' Hx'. discriminate.
+    + destruct (acc ++ map (fun x : N * N * N => x.1.2) l) eqn:Ea.
+      * exact I.
+      * cbn. split; [exact Hacc|]. intros x' Hx'. discriminate.
+  - (* G1: is the latest one of them? *)
+    cbn [ostore_step fst snd]. destruct (Frame (c_store s) eq_refl eq_refl) as [F1 F2].
+    split; [exact F1|]. split; [exact F2|]. rewrite (view_after_frame _ _ eq_refl eq_refl).
+    cbn [cl_resume].
+    assert (forall b : N, (None : option N) = Some b -> b ∈ v_hist (view s)) as Hb0 by (intros b Hb; discriminate).
+    pose proof (scan_goal (view s) (G1 p children) _ (next_scan_ok (view s) p children None Hok Hb0)) as Hscan.
+    destruct (o_latest (c_store s)) as [l0|] eqn:El; [|exact Hscan].
+    destruct (bool_decide (l0 ∈ children)); [|exact Hscan].
+    cbn. split; [apply (latest_in_hist (view s)); [exact HC|exact El]|]. intros x' Hx'. discriminate.
+  - (* G2: does this child have children? *)
+    destruct (ostore_step rank pagesz now (c_store s) (QListVer (Some cur) after)) as [r st'] eqn:E.
+    destruct (list_ver_resp _ _ _ _ _ _ E) as (-> & l & more & ->).
+    cbn [fst snd]. destruct (Frame (c_store s) eq_refl eq_refl) as [F1 F2].
+    split; [exact F1|]. split; [exact F2|]. rewrite (view_after_frame _ _ eq_refl eq_refl).
+    cbn [cl_resume]. destruct Hok as (Ht & Hcur & Hne & Hbest).
+    set (ne' := nonempty || match l with [] => false | _ => true end).
+    assert (ne' = true -> cur ∈ c_hist s) as Hne'.
+    { unfold ne'. intros Hor. apply orb_true_iff in Hor as [Hor|Hor]; [apply Hne; exact Hor|].
+      destruct l as [|x l']; [discriminate|].
+      destruct (page_elem rank pagesz threshold now (c_store s) (Some cur) after (x :: l') more x) as [(pl0 & Hpl) Hp];
+        [rewrite E; reflexivity|left|].
+      destruct x as [[xp xc] xt]. cbn in Hp, Hpl. specialize (Hp cur eq_refl). subst xp.
+      destruct (I7 _ _ _ Hpl) as (_ & _ & [H0|Hin] & _); [lia|exact Hin]. }
+    destruct more.
+    + cbn. split; [|intros x' Hx'; discriminate]. split; [exact Ht|]. split; [exact Hcur|]. split; [exact Hne'|exact Hbest].
+    + assert (forall b, (if ne' then Some cur else best) = Some b -> b ∈ v_hist (view s)) as Hb'.
+      { intros b. destruct ne'; [intros [= <-]; apply Hne'; reflexivity|apply Hbest]. }
+      apply (scan_goal (view s)). apply next_scan_ok; [exact Ht|exact Hb'].
+  - (* G3: fetch the version *)
+    cbn [ostore_step fst snd]. destruct (Frame (c_store s) eq_refl eq_refl) as [F1 F2].
+    split; [exact F1|]. split; [exact F2|]. rewrite (view_after_frame _ _ eq_refl eq_refl).
+    cbn [cl_resume]. destruct (o_vers (c_store s) !! (p, c)) as [[pl t]|] eqn:Ev; cbn.
+    + exists p. split; [reflexivity|]. split; [exact Hok|]. apply (I7 _ _ _ Ev).
+    + exact I.
+  - (* S0: store a snapshot *)
+    cbn [ostore_step fst snd].
+    destruct (Frame {| o_latest := o_latest (c_store s); o_vers := o_vers (c_store s);
+                       o_snaps := <[v := pl]> (o_snaps (c_store s)) |} eq_refl eq_refl) as [F1 F2].
+    split; [exact F1|]. split; [exact F2|]. cbn. exact I.
+  - (* T0 *)
+    destruct (ostore_step rank pagesz now (c_store s) (QListSnap None)) as [r st'] eqn:E.
+    destruct (list_snap_resp _ _ _ _ _ E) as (-> & l & more & ->).
+    cbn [fst snd]. destruct (Frame (c_store s) eq_refl eq_refl) as [F1 F2].
+    split; [exact F1|]. split; [exact F2|]. rewrite (view_after_frame _ _ eq_refl eq_refl).
+    destruct l; cbn; [exact I|]. split; [exact I|]. intros x' Hx'. discriminate.
+  - (* T1 *)
+    cbn [ostore_step fst snd]. destruct (Frame (c_store s) eq_refl eq_refl) as [F1 F2].
+    split; [exact F1|]. split; [exact F2|]. rewrite (view_after_frame _ _ eq_refl eq_refl).
+    cbn. destruct (o_snaps (c_store s) !! v); cbn; exact I.
+Qed.
+End Step.
+
+(** ** every event preserves the invariant *)
+Definition Own (m : gmap nat cpc) : Prop :=
+  forall i j c c' x, i <> j -> m !! i = Some c -> m !! j = Some c' ->
+    owned c = Some x -> owned c' = Some x -> False.
+
+Lemma Own_delete m i : Own m -> Own (delete i m).
+Proof.
+  intros H a b c c' x Hab Ha Hb. apply lookup_delete_Some in Ha as [_ Ha]. apply lookup_delete_Some in Hb as [_ Hb].
+  eapply H; eauto.
+Qed.
+
+Lemma Own_insert m i c :
+  Own m -> (forall x, owned c = Some x -> forall j c2, j <> i -> m !! j = Some c2 -> owned c2 <> Some x) ->
+  Own (<[i := c]> m).
+Proof.
+  intros H Hc a b ca cb x Hab Ha Hb Hoa Hob.
+  destruct (decide (a = i)) as [->|Hai], (decide (b = i)) as [->|Hbi]; try congruence.
+  - rewrite lookup_insert in Ha. injection Ha as <-. rewrite lookup_insert_ne in Hb by congruence.
+    eapply Hc; eauto.
+  - rewrite lookup_insert in Hb. injection Hb as <-. rewrite lookup_insert_ne in Ha by congruence.
+    eapply Hc; eauto.
+  - rewrite lookup_insert_ne in Ha by congruence. rewrite lookup_insert_ne in Hb by congruence.
+    exact (H a b ca cb x Hab Ha Hb Hoa Hob).
+Qed.
+
+Section Run.
+Variable rank : N -> N.
+Variable pagesz : nat.
+Variable threshold : N.
+Notation cstep' := (cstep rank pagesz threshold).
+
+Lemma CInv_init : CInv csys0.
+Proof.
+  unfold CInv, csys0, view, Core; cbn. repeat split; try (intros; set_solver); try lia.
+  - constructor.
+  - intros p p' c [x H]. rewrite lookup_empty in H. discriminate.
+  - constructor.
+Qed.
+
+(** starting a call that owns nothing *)
+Lemma CInv_start_plain s i c :
+  CInv s -> c_clients s !! i = None -> client_ok (view s) c -> owned c = None ->
+  CInv (with_clients s (<[i := c]> (c_clients s))).
+Proof.
+  intros (HC & Hcl & Hown & Hres) Hi Hok Ho.
+  match goal with |- CInv ?s' => assert (view s' = view s) as Hv by reflexivity end.
+  unfold CInv. rewrite Hv. cbn [c_clients c_results with_clients].
+  split; [exact HC|]. split; [|split; [|exact Hres]].
+  - intros j cj Hj. destruct (decide (j = i)) as [->|Hne].
+    + rewrite lookup_insert in Hj. injection Hj as <-. exact Hok.
+    + rewrite lookup_insert_ne in Hj by congruence. eauto.
+  - apply Own_insert; [exact Hown|]. intros x Hx. rewrite Ho in Hx. discriminate.
+Qed.
+
+Lemma owned_lt v c x : client_ok v c -> owned c = Some x -> (x < v_next v)%N.
+Proof.
+  destruct c; cbn; try discriminate; intros H [= <-].
+  - destruct H as [(_ & H & _) _]. exact H.
+  - destruct H as [(_ & H & _) _]. exact H.
+  - destruct H as [(_ & H & _) _]. exact H.
+  - destruct H as [H _]. exact H.
+Qed.
+
+Theorem CInv_step s e : CInv s -> CInv (cstep' s e).
+Proof.
+  intros Hinv. pose proof Hinv as (HC & Hcl & Hown & Hres).
+  destruct e as [i p pl|i p|i v pl|i|i now|i|i now]; cbn [cstep].
+  - (* a new add-version call *)
+    destruct (c_clients s !! i) eqn:Hi; [exact Hinv|].
+    destruct (bool_decide (p = 0%N \/ p ∈ c_hist s)) eqn:Ep; [|exact Hinv].
+    apply bool_decide_eq_true in Ep.
+    pose proof HC as (I1 & I2 & I3 & I4 & I5 & I6 & I7 & I8).
+    match goal with |- CInv ?s' => assert (view s' = start_view (view s) p pl) as Hv by reflexivity end.
+    unfold CInv. rewrite Hv. cbn [c_clients c_results].
+    split; [apply Core_start; exact HC|]. split; [|split].
+    + intros j cj Hj. destruct (decide (j = i)) as [->|Hne].
+      * rewrite lookup_insert in Hj. injection Hj as <-. cbn. split.
+        -- unfold fresh_id; cbn. repeat split; auto; try lia.
+           ++ intros Hin. apply I4 in Hin. cbn in Hin. lia.
+           ++ rewrite lookup_insert. reflexivity.
+        -- intros p'. destruct (o_vers (c_store s) !! (p', c_next s)) as [x|] eqn:Ev; [|reflexivity].
+           destruct (I7 _ _ _ Ev) as (_ & Hlt & _). cbn in Hlt. lia.
+      * rewrite lookup_insert_ne in Hj by congruence. apply client_ok_start; [exact HC|eauto].
+    + apply Own_insert; [exact Hown|]. cbn. intros x [= <-] j c2 Hj Hc2 Ho.
+      pose proof (owned_lt _ _ _ (Hcl _ _ Hc2) Ho) as Hlt. cbn in Hlt. lia.
+    + eapply Forall_impl; [exact Hres|]. intros r Hr. apply result_ok_start; [exact HC|exact Hr].
+  - destruct (c_clients s !! i) eqn:Hi; [exact Hinv|]. apply CInv_start_plain; auto. cbn. constructor.
+  - destruct (c_clients s !! i) eqn:Hi; [exact Hinv|]. apply CInv_start_plain; auto. exact I.
+  - destruct (c_clients s !! i) eqn:Hi; [exact Hinv|]. apply CInv_start_plain; auto. exact I.
+  - (* one request *)
+    destruct (c_clients s !! i) as [c|] eqn:Hi; [|exact Hinv].
+    destruct (cl_next c) as [q|r0] eqn:Hq; [|exact Hinv].
+    pose proof (step_client rank pagesz threshold s i now c Hinv Hi q Hq) as Hst. cbn zeta in Hst.
+    destruct (ostore_step rank pagesz now (c_store s) q) as [r st'] eqn:Er. cbn [fst snd] in Hst.
+    destruct Hst as (HC' & (x & Ht & Hx) & Hc').
+    assert (forall j cj, j <> i -> c_clients s !! j = Some cj -> client_ok (view_after s st') cj) as Hothers.
+    { intros j cj Hne Hj. destruct Hx as [Hx|[Hx Hv]].
+      - eapply client_ok_other; [exact Ht| |eauto]. intros Ho. eapply (Hown i j); eauto.
+      - rewrite Hv. eauto. }
+    assert (Forall (result_ok (view_after s st')) (c_results s)) as Hres'.
+    { eapply Forall_impl; [exact Hres|]. intros r1 Hr1. eapply result_ok_mono; eauto. }
+    destruct (cl_resume rank threshold c r) eqn:Ec';
+      (match goal with |- CInv ?s' => assert (view s' = view_after s st') as Hv by reflexivity end;
+       unfold CInv; rewrite Hv; cbn [c_clients c_results]);
+      try (destruct Hc' as [Hok' Hown'];
+           split; [exact HC'|]; split; [|split; [|exact Hres']];
+           [ intros j cj Hj; destruct (decide (j = i)) as [->|Hne];
+             [ rewrite lookup_insert in Hj; injection Hj as <-; exact Hok'
+             | rewrite lookup_insert_ne in Hj by congruence; eauto ]
+           | apply Own_insert; [exact Hown|];
+             intros x' Hx' j c2 Hj Hc2 Ho; apply Hown' in Hx'; eapply (Hown i j); eauto ]).
+    (* the call finished *)
+    split; [exact HC'|]. split; [|split].
+    + intros j cj Hj. apply lookup_delete_Some in Hj as [Hne Hj]. eauto.
+    + apply Own_delete. exact Hown.
+    + constructor; [exact Hc'|exact Hres'].
+  - (* dropped *)
+    match goal with |- CInv ?s' => assert (view s' = view s) as Hv by reflexivity end.
+    unfold CInv; rewrite Hv; cbn [c_clients c_results with_clients].
+    split; [exact HC|]. split; [|split; [|exact Hres]].
+    + intros j cj Hj. apply lookup_delete_Some in Hj as [_ Hj]. eauto.
+    + apply Own_delete. exact Hown.
+  - (* request performed, reply lost, client gone *)
+    destruct (c_clients s !! i) as [c|] eqn:Hi; [|exact Hinv].
+    destruct (cl_next c) as [q|r0] eqn:Hq; [|exact Hinv].
+    pose proof (step_client rank pagesz threshold s i now c Hinv Hi q Hq) as Hst. cbn zeta in Hst.
+    destruct (ostore_step rank pagesz now (c_store s) q) as [r st'] eqn:Er. cbn [fst snd] in Hst.
+    destruct Hst as (HC' & (x & Ht & Hx) & _).
+    match goal with |- CInv ?s' => assert (view s' = view_after s st') as Hv by reflexivity end.
+    unfold CInv; rewrite Hv; cbn [c_clients c_results].
+    split; [exact HC'|]. split; [|split].
+    + intros j cj Hj. apply lookup_delete_Some in Hj as [Hne Hj]. destruct Hx as [Hx|[Hx Hv0]].
+      * eapply client_ok_other; [exact Ht| |eauto]. intros Ho. eapply (Hown i j); eauto.
+      * rewrite Hv0. eauto.
+    + apply Own_delete. exact Hown.
+    + eapply Forall_impl; [exact Hres|]. intros r1 Hr1. eapply result_ok_mono; eauto.
+Qed.
+
+(** The invariant holds in every state reachable by any schedule of any number
+    of clients, with any failures. *)
+Theorem CInv_run (evs : list cev) : CInv (fold_left cstep' evs csys0).
+Proof.
+  assert (forall s, CInv s -> CInv (fold_left cstep' evs s)) as H.
+  { induction evs as [|e evs IH]; intros s Hs; [exact Hs|]. cbn. apply IH. apply CInv_step. exact Hs. }
+  apply H. apply CInv_init.
+Qed.
+End Run.
+
+(** ** what the invariant gives *)
+Section Consequences.
+Variable rank : N -> N.
+Variable pagesz : nat.
+Variable threshold : N.
+Notation run evs := (fold_left (cstep rank pagesz threshold) evs csys0).
+
+(** the history of [latest] only grows, and results are never forgotten *)
+Lemma hist_after_prefix st st' h : h `prefix_of` hist_after st st' h.
+Proof.
+  unfold hist_after. destruct (bool_decide _); [reflexivity|].
+  destruct (o_latest st'); [apply prefix_app_r; reflexivity|reflexivity].
+Qed.
+
+Lemma step_grows s e :
+  c_hist s `prefix_of` c_hist (cstep rank pagesz threshold s e)
+  /\ (forall x, x ∈ c_results s -> x ∈ c_results (cstep rank pagesz threshold s e)).
+Proof.
+  assert (c_hist s `prefix_of` c_hist s /\ (forall x, x ∈ c_results s -> x ∈ c_results s)) as Hsame
+    by (split; [reflexivity|auto]).
+  destruct e as [i p pl|i p|i v pl|i|i now|i|i now]; cbn [cstep].
+  - destruct (c_clients s !! i); [exact Hsame|]. destruct (bool_decide _); exact Hsame.
+  - destruct (c_clients s !! i); exact Hsame.
+  - destruct (c_clients s !! i); exact Hsame.
+  - destruct (c_clients s !! i); exact Hsame.
+  - destruct (c_clients s !! i) as [c|]; [|exact Hsame].
+    destruct (cl_next c); [|exact Hsame].
+    destruct (ostore_step _ _ _ _ _) as [r st']. cbn. split; [apply hist_after_prefix|].
+    intros x Hx. destruct (cl_resume _ _ _ _); try exact Hx. right. exact Hx.
+  - exact Hsame.
+  - destruct (c_clients s !! i) as [c|]; [|exact Hsame].
+    destruct (cl_next c); [|exact Hsame].
+    destruct (ostore_step _ _ _ _ _) as [r st']. cbn. split; [apply hist_after_prefix|auto].
+Qed.
+
+Lemma run_grows evs more :
+  c_hist (run evs) `prefix_of` c_hist (run (evs ++ more))
+  /\ (forall x, x ∈ c_results (run evs) -> x ∈ c_results (run (evs ++ more))).
+Proof.
+  rewrite fold_left_app. generalize (run evs) as s. induction more as [|e more IH]; intros s; cbn.
+  - split; auto; reflexivity.
+  - destruct (step_grows s e) as [H1 H2]. destruct (IH (cstep rank pagesz threshold s e)) as [H3 H4].
+    split; [etrans; eauto|auto].
+Qed.
+
+(** position of a version on the chain *)
+Lemma chain_position v c p :
+  Core v -> c ∈ v_hist v -> is_Some (v_vers v !! (p, c)) ->
+  exists k, v_hist v !! k = Some c
+            /\ (forall k', k = S k' -> v_hist v !! k' = Some p) /\ (k = 0%nat -> p = 0%N).
+Proof.
+  intros (I1 & I2 & I3 & I4 & I5 & I6 & I7 & I8) Hc Hobj.
+  apply elem_of_list_lookup in Hc as [k Hk]. exists k. split; [exact Hk|].
+  destruct (I5 k c Hk) as (p0 & Hs & Hp & Hz). rewrite (I6 p p0 c Hobj Hs). auto.
+Qed.
+
+(** At most one child per parent is ever accepted: two versions on the chain
+    stored under the same parent are the same version. *)
+Theorem one_child_per_parent evs p c1 c2 :
+  let s := run evs in
+  c1 ∈ c_hist s -> c2 ∈ c_hist s ->
+  is_Some (o_vers (c_store s) !! (p, c1)) -> is_Some (o_vers (c_store s) !! (p, c2)) -> c1 = c2.
+Proof.
+  cbn zeta. intros H1 H2 O1 O2. pose proof (CInv_run rank pagesz threshold evs) as (HC & _).
+  destruct (chain_position _ _ _ HC H1 O1) as (k1 & K1 & P1 & Z1).
+  destruct (chain_position _ _ _ HC H2 O2) as (k2 & K2 & P2 & Z2).
+  pose proof HC as (_ & I2 & _ & I4 & _). cbn in *.
+  assert (k1 = k2) as ->; [|congruence].
+  destruct k1 as [|k1'], k2 as [|k2']; [reflexivity| | |].
+  - specialize (Z1 eq_refl). specialize (P2 _ eq_refl). subst p.
+    apply elem_of_list_lookup_2 in P2. apply I4 in P2. lia.
+  - specialize (Z2 eq_refl). specialize (P1 _ eq_refl). subst p.
+    apply elem_of_list_lookup_2 in P1. apply I4 in P1. lia.
+  - specialize (P1 _ eq_refl). specialize (P2 _ eq_refl). f_equal.
+    eapply NoDup_lookup; eauto.
+Qed.
+
+(** A client that was told its version was accepted finds it on the chain in
+    every later state. *)
+Theorem accepted_stays_on_chain evs more pc c u :
+  (pc, CAddOk c u) ∈ c_results (run evs) -> c ∈ c_hist (run (evs ++ more)).
+Proof.
+  intros H. apply (run_grows evs more) in H.
+  pose proof (CInv_run rank pagesz threshold (evs ++ more)) as (_ & _ & _ & Hres).
+  rewrite Forall_forall in Hres. apply Hres in H. exact H.
+Qed.
+
+(** What get-child-version returns is the chain child of the requested parent
+    -- never a version that lost the race -- and carries exactly the bytes that
+    were submitted under that id, although its reads happen at different times. *)
+Theorem served_is_chain_child evs pc c pl :
+  let s := run evs in
+  (pc, CVersion c pl) ∈ c_results s ->
+  exists p k, pc = G3 p c /\ c_sub s !! c = Some (p, pl)
+              /\ c_hist s !! k = Some c
+              /\ (forall k', k = S k' -> c_hist s !! k' = Some p) /\ (k = 0%nat -> p = 0%N).
+Proof.
+  cbn zeta. intros H. pose proof (CInv_run rank pagesz threshold evs) as (HC & _ & _ & Hres).
+  rewrite Forall_forall in Hres. apply Hres in H. destruct H as (p & Hpc & Hin & Hsub). cbn in Hpc. subst pc.
+  pose proof HC as (_ & _ & _ & _ & I5 & I6 & I7 & _).
+  apply elem_of_list_lookup in Hin as [k Hk]. exists p, k. cbn in *.
+  split; [reflexivity|]. split; [exact Hsub|]. split; [exact Hk|].
+  destruct (I5 k c Hk) as (p0 & [x Hs] & Hp & Hz).
+  destruct (I7 _ _ _ Hs) as (_ & _ & _ & Hs'). rewrite Hsub in Hs'. injection Hs' as -> _. auto.
+Qed.
+
+(** A rejection names the nil version or a version that has been the latest. *)
+Theorem expected_was_latest evs pc l :
+  (pc, CExpected l) ∈ c_results (run evs) -> l = 0%N \/ l ∈ c_hist (run evs).
+Proof.
+  intros H. pose proof (CInv_run rank pagesz threshold evs) as (_ & _ & _ & Hres).
+  rewrite Forall_forall in Hres. apply Hres in H. exact H.
+Qed.
+
+(** the premises are satisfiable: two clients race for the first version, one
+    wins, the other is rejected naming the winner, and a reader is served the
+    winner *)
+Example race_example :
+  let evs := [VStartAdd 0 0 7; VStartAdd 1 0 8; VStep 0 1; VStep 1 1; VStep 0 1; VStep 1 1;
+              VStep 0 1; VStep 1 1; VStep 1 1; VStep 1 1; VStep 0 1;
+              VStartGet 2 0; VStep 2 1; VStep 2 1; VStep 2 1] in
+  let s := fold_left (cstep (fun x => x) 2 0) evs csys0 in
+  c_hist s = [1%N]
+  /\ map snd (c_results s) = [CVersion 1 7; CAddOk 1 true; CExpected 1].
+Proof. vm_compute. split; reflexivity. Qed.
+End Consequences.
